@@ -782,8 +782,12 @@ func (c *Client) Do(ctx context.Context, q Query) (err error) {
 				return nil
 			default:
 				if err := c.handlePacket(ctx, code, q); err != nil {
-					if IsException(err) {
-						// Prevent query cancellation on exception.
+					if code == proto.ServerCodeException && IsException(err) {
+						// Prevent query cancellation on server exception.
+						//
+						// Not on error of user callback that happens to wrap
+						// an Exception (e.g. of nested query): server stream
+						// is not read to the end then.
 						gotException.Store(true)
 					}
 					return errors.Wrap(err, "handle packet")
